@@ -248,20 +248,20 @@ func (w *world) pos(p token.Pos) (string, int, int) {
 // ---------------------------------------------------------------------------
 // collection of functions, struct fields, syntactic side tables
 
+// recvName: "T." for methods of T or *T (no "(*T)" spelling: the names end up in Coq string literals and the
+// project's comment stripper is not string-aware).
 func recvName(fd *ast.FuncDecl) string {
 	if fd.Recv == nil || len(fd.Recv.List) == 0 {
 		return ""
 	}
 	t := fd.Recv.List[0].Type
-	star := ""
 	if s, ok := t.(*ast.StarExpr); ok {
 		t = s.X
-		star = "*"
 	}
 	if id, ok := t.(*ast.Ident); ok {
-		return "(" + star + id.Name + ")."
+		return id.Name + "."
 	}
-	return "(?)."
+	return "?."
 }
 
 func (w *world) collect() {
